@@ -164,6 +164,28 @@ def check_roundtrip(ctx, case, stratum="roundtrip"):
                     bad("malformed-text-not-refused-with-ValueError", hs[:12], "ValueError", outcome)
                 if pkg_docs(Package.from_str(raw.decode("utf-8"))) != want:
                     bad("decode-after-failed-decode", ["str", hs[:12]], "the valid envelope still decodes", "differs")
+        if z is not None:
+            # text with a compressing configuration: refused (compressed bytes are no text) -- or, if a string does
+            # come back, it is an envelope like any other: its header describes its payload and it decodes to the package
+            ctx.count("monitor:to_str-with-zstd")
+            try:
+                s_ = pkg.to_str(cfg)
+            except Exception:  # noqa: BLE001
+                s_ = None
+            if s_ is not None:
+                rb = s_.encode("utf-8")
+                compressed = True
+                try:
+                    pyzstd.decompress(rb[10:])
+                except Exception:  # noqa: BLE001
+                    compressed = False
+                if rb[:8] != MAGIC or (rb[9] & 1) != int(compressed) or (rb[9] >> 6) != 0b01:
+                    bad("header-flags[to_str with zstd]", z, {"bit0": int(compressed)}, bin(rb[9]) if len(rb) > 9 else "short")
+                try:
+                    if pkg_docs(Package.from_str(s_)) != want:
+                        bad("roundtrip-str[to_str with zstd]", z, "the same package", "differs")
+                except Exception as e:  # noqa: BLE001
+                    bad("roundtrip-str[to_str with zstd]", z, "decodes", f"{type(e).__name__}: {str(e)[:120]}")
         if z is None:
             ctx.count("monitor:roundtrip-str")
             s = pkg.to_str(cfg)
